@@ -25,7 +25,19 @@ Definition chk01 (v : value) (obs : node) (ld : value) :=
   [wf_obj v; node_eqb (save_file [] [] v) obs; res_eqb (load_file [] [] obs) (RVal ld);
    res_eqb (load_file [] [] (save_file [] [] v)) (RVal (norm v)); value_eqb (norm v) ld].
 Definition chk_enc (v : value) (obs : node) := [wf_obj v; node_eqb (save_file [] [] v) obs].
-Definition disp (v : value) := (map (fun g => g v) guards, Z.of_nat (dispatch v), Z.of_nat (intended v), types_of v).
+(* second save of the loaded object (fixed point): the store it writes is the model's store of the loaded object, the
+   model's own save/load of it is a fixed point, loading the real second store gives the loaded object again; the
+   other store (zip <-> dir) holds the model's tree *)
+Definition chk01x (v : value) (obs : node) (ld : value) (o2 : option (value * node * value)) (o3 : option node) :=
+  (chk01 v obs ld
+  ++ match o2 with
+     | Some (ld_s, obs2, ld2) => [node_eqb (save_file [] [] ld_s) obs2; res_eqb (load_file [] [] (save_file [] [] ld_s)) (RVal ld);
+                                  res_eqb (load_file [] [] obs2) (RVal ld2); value_eqb ld ld2]
+     | None => [] end
+  ++ match o3 with Some obs3 => [node_eqb (save_file [] [] v) obs3] | None => [] end)%list.
+(* outside the quantified domain, where the model still predicts the behaviour: load raises *)
+Definition chk_out (v : value) (obs : node) := [wf_obj v; node_eqb (save_file [] [] v) obs; res_eqb (load_file [] [] obs) RErr].
+Definition disp (v : value) := (map (fun g => g v) guards, Z.of_nat (dispatch v), Z.of_nat (intended v), types_of v, abcs_of v).
 """
 
 ASSUMPTIONS = [
@@ -36,7 +48,9 @@ ASSUMPTIONS = [
     "dill.loads(gzip.decompress(gzip.compress(dill.dumps(x)))) == x for the fallback kind (exercised on complex)",
     "a user ndarray of dtype uint8 is never a valid gzip stream of a dill pickle (the arrays loop of _recursive_load "
     "tries to unpickle every array)",
-    "plain Python classes (attributes in __dict__); attrs-decorated classes and __attrs_post_init__ are not modelled",
+    "an attrs-decorated class is modelled as a plain object whose attributes are its declared fields (what "
+    "_recursive_save iterates); attributes outside the declared fields and __attrs_post_init__ are not modelled",
+    "SummaryWriter loggers have no constructor in the model: judged by the oracle alone (same kind of object back)",
 ]
 TRUSTED = [
     "Coq 8.16.1 kernel incl. vm_compute (used to run the model); no native_compute",
@@ -58,9 +72,18 @@ def gen_cases(ctx: Ctx):
                       "fixpoint": True, "other_store": dict(G.gen_cfg(r), store="dir" if cfg["store"] == "zip" else "zip", mode="w"),
                       "known_limit": False})
         n += 1
+    for label, spec in G.oracle_only_pool():
+        cfg = G.gen_cfg(r)
+        cases.append({"id": "o%03d" % n, "prop": "C01", "label": label, "spec": spec, "cfg": cfg, "dispatch": False,
+                      "fixpoint": True, "other_store": None, "known_limit": False})
+        n += 1
     for label, spec in G.known_limit_pool():
         cases.append({"id": "k%03d" % n, "prop": "C01", "label": label, "spec": spec, "cfg": G.gen_cfg(r), "dispatch": False,
                       "fixpoint": False, "other_store": None, "known_limit": True})
+        n += 1
+    for label, spec in G.outside_pool():
+        cases.append({"id": "x%03d" % n, "prop": "C01", "label": label, "spec": spec, "cfg": G.gen_cfg(r), "dispatch": False,
+                      "fixpoint": False, "other_store": None, "known_limit": False, "outside": True})
         n += 1
     n_rand = ctx.budget(70, 1500)
     for j in range(n_rand):
@@ -68,11 +91,27 @@ def gen_cases(ctx: Ctx):
         width = r.choice([2, 3, 4]) if ctx.quick else r.choice([2, 3, 4, 6, 8])
         spec = G.gen_obj(r, depth, width)
         cfg = G.gen_cfg(r)
+        # thorough tier: second save/load (fixed point) and the other store for EVERY case
         cases.append({"id": "r%04d" % j, "prop": "C01", "label": "graph", "spec": spec, "cfg": cfg, "dispatch": j % 4 == 0,
-                      "fixpoint": j % 3 == 0,
-                      "other_store": dict(G.gen_cfg(r), store="dir" if cfg["store"] == "zip" else "zip", mode="w") if j % 3 == 1 else None,
+                      "fixpoint": j % 3 == 0 or not ctx.quick,
+                      "other_store": dict(G.gen_cfg(r), store="dir" if cfg["store"] == "zip" else "zip", mode="w")
+                      if (j % 3 == 1 or not ctx.quick) else None,
                       "known_limit": False})
     return cases
+
+
+def _classes_in(spec, acc):
+    if spec[0] == "obj":
+        acc.append(spec[1])
+        for _, v in spec[2]:
+            _classes_in(v, acc)
+    elif spec[0] in ("list", "tuple", "set"):
+        for v in spec[1]:
+            _classes_in(v, acc)
+    elif spec[0] == "dict":
+        for _, v in spec[1]:
+            _classes_in(v, acc)
+    return acc
 
 
 def report(ctx: Ctx, case, res, key, msg, found_input=True, shrink=True):
@@ -96,9 +135,14 @@ def run(ctx: Ctx):
     ctx.cov["rule"] = (
         "cases: object-graph specs [hand-picked pool: every value kind of the property with its edge values (sets, 0-d and "
         "empty arrays of every dtype family, numeric mixes, nan/inf, 2**62, paths/dicts/objects inside containers, tensors, "
-        "modules, optimizers, rngs of every bit generator, loggers) + known-limit pool + seeded random graphs (depth<=3/width<=4 "
-        "quick, depth<=5/width<=8 thorough)], each with a random (store, compression in {None,0..9}, str|Path target, mode w|o); "
-        "a case is distinct by (spec, configuration) and non-trivial when the graph has >= 4 values")
+        "modules incl. ModuleList/Sequential/ParameterList as attributes and inside containers, optimizers, rngs of every bit "
+        "generator as attributes and inside list/tuple/dict/set, Python and NumPy complex (dill fallback) as attributes and inside "
+        "containers, loggers, attrs-decorated classes with and without slots) + oracle-only pool (SummaryWriter) + known-limit pool "
+        "+ outside-domain pool (optimizer/scheduler inside containers: model agreement recorded) + seeded random graphs (depth<=3/"
+        "width<=4 quick, depth<=5/width<=8 thorough; 12% attrs classes)], each with a random (store, compression in {None,0..9}, "
+        "str|Path target, mode w|o); second save/load of the loaded object and the other store for every pool case, a third of the "
+        "random quick cases and every thorough case; a case is distinct by (spec, configuration) and non-trivial when the graph has "
+        ">= 4 values")
     ctx.assumptions += ASSUMPTIONS
     ctx.cov["trusted_base"] += TRUSTED
     ctx.proofs_or_violation()
@@ -126,7 +170,10 @@ def _run(ctx: Ctx):
         ctx.dist("compression/%s" % cfg["compression"])
         ctx.dist("target/" + ("Path" if cfg["as_path"] else "str"))
         ctx.dist("mode/" + cfg["mode"])
-        ctx.dist("source/" + ("known-limit" if case["known_limit"] else "pool" if case["label"] != "graph" else "random"))
+        ctx.dist("source/" + ("known-limit" if case["known_limit"] else "outside-pool" if case.get("outside") else
+                              "pool" if case["label"] != "graph" else "random"))
+        for cls in set(_classes_in(case["spec"], [])):
+            ctx.dist("class/" + cls)
         ctx.dist("depth/%d" % G.spec_depth(case["spec"]))
         n_fix += bool(res.get("fixpoint_done"))
         n_other += bool(res.get("other_done"))
@@ -139,6 +186,8 @@ def _run(ctx: Ctx):
                               {"kind": "case", "case": case, "diffs": res["diffs"][:4]})
             else:
                 ctx.expect_known(case["label"])
+        elif case.get("outside"):
+            pass                    # outside the quantified domain by construction: only model agreement is recorded
         elif not res["v"]:
             # no model term to decide wf_obj with: report at once
             for key, msg in res["diffs"]:
@@ -146,8 +195,16 @@ def _run(ctx: Ctx):
         # (oracle differences of the other cases are reported below, once the model has said whether the
         #  graph is inside the quantified domain wf_obj)
         # ---- correspondence expressions
-        if res["v"] and res["obs"] and res["ld"]:
-            exprs.append("chk01 %s %s %s" % (res["v"], res["obs"], res["ld"]))
+        if case.get("outside"):
+            if res["v"] and res["obs"]:
+                exprs.append("chk_out %s %s" % (res["v"], res["obs"]))
+                idx.append((case, res, "out"))
+        elif res["v"] and res["obs"] and res["ld"]:
+            o2 = "(Some (%s, %s, %s))" % (res["ld_s"], res["obs2"], res["ld2"]) if res.get("obs2") and res.get("ld2") and res.get("ld_s") else "None"
+            o3 = "(Some %s)" % res["obs3"] if res.get("obs3") else "None"
+            res["_extra"] = (["second-store", "model-fixpoint", "second-decode", "second-load-equal"] if o2 != "None" else []) + \
+                            (["other-store"] if o3 != "None" else [])
+            exprs.append("chk01x %s %s %s %s %s" % (res["v"], res["obs"], res["ld"], o2, o3))
             idx.append((case, res, "full"))
         elif res["v"] and res["obs"]:
             exprs.append("chk_enc %s %s" % (res["v"], res["obs"]))
@@ -162,7 +219,7 @@ def _run(ctx: Ctx):
     ctx.log("oracle done; %d model evaluations" % len(exprs))
     vals = ctx.coq_eval("rt", PRE, exprs, shard=12, timeout=900)
     nd = 0
-    n_outside, outside_samples = 0, []
+    n_outside, outside_samples, outside_pool = 0, [], []
     for (case, res, mode), v in zip(idx, vals):
         ctx.cov["traces_validated_against_impl"] += 1
         oracle_failed = bool(res["diffs"])
@@ -171,7 +228,14 @@ def _run(ctx: Ctx):
             # outside the theorem's domain, or a codec limit the model does not describe: only recorded
             ctx.dist("known-limit/wf=%s" % wf)
             continue
-        names = ["wf", "encode", "decode", "model-roundtrip", "roundtrip"][:len(v)]
+        if mode == "out":
+            raised = any("load-raises" in k for k, _ in res["diffs"])
+            agrees = (not wf) and bool(v[1]) and (bool(v[2]) == raised) and raised
+            ctx.dist("outside-pool/" + ("model-agrees" if agrees else "model-differs"))
+            outside_pool.append({"case": case["label"], "wf": wf, "store_matches_model": v[1], "model_load_is_error": v[2],
+                                 "real_load_raised": raised})
+            continue
+        names = (["wf", "encode", "decode", "model-roundtrip", "roundtrip"] + res.get("_extra", []))[:len(v)]
         if not wf:
             # outside the quantified domain (wf_obj = the property's quantifier minus the listed known
             # findings, each of which has its own always-run case in the known-limit pool): the random
@@ -188,7 +252,12 @@ def _run(ctx: Ctx):
             if not ok:
                 nd += 1
                 ctx.cov["disagreements_checked"] += 1
-                what = {"encode": "the store written by save() differs from the model's save_file",
+                what = {"second-store": "the store written by the second save (of the loaded object) differs from the model's save_file of the loaded object",
+                        "model-fixpoint": "the model's save/load of the loaded object is not the loaded object (fixed-point theorem instance false)",
+                        "second-decode": "load() of the second store differs from the model's load_file on it",
+                        "second-load-equal": "the object loaded from the second store differs from the first loaded object (fixed point, as model values)",
+                        "other-store": "the other store (zip <-> dir) holds a tree that differs from the model's save_file",
+                        "encode": "the store written by save() differs from the model's save_file",
                         "decode": "load() of the written store differs from the model's load_file on the same store",
                         "model-roundtrip": "the model's own round trip is not norm v on a wf graph (theorem instance false)",
                         "roundtrip": "the loaded object differs from norm v predicted by the model"}[nm]
@@ -204,23 +273,26 @@ def _run(ctx: Ctx):
         drows.append(row)
     dvals = ctx.coq_eval("disp", PRE, dexprs, shard=60)
     for row, v in zip(drows, dvals):
-        gv, d, intended, tys = v
+        gv, d, intended, tys, abcs = v
         ctx.cov["traces_validated_against_impl"] += 1
         ctx.dist("dispatch/branch-%d" % d)
         py_first = row["guards"].index(True) if True in row["guards"] else 15
-        ok = list(gv) == row["guards"] and d == py_first and intended == d and tys[0] == row["mro"][0] and set(tys) == set(row["mro"] + ["builtins.object"])
+        ok = list(gv) == row["guards"] and d == py_first and intended == d and tys[0] == row["mro"][0] and set(tys) == set(row["mro"] + ["builtins.object"]) \
+            and set(abcs) == set(row.get("abcs", abcs))
         if not ok:
             nd += 1
             ctx.cov["disagreements_checked"] += 1
             ctx.violation("dispatch-correspondence",
                           "guards/branch/types of the model differ from _serialize_value's tests on a real %s: model guards=%s branch=%s "
-                          "types=%s; real guards=%s first=%d mro=%s" % (row["type"], gv, d, tys, row["guards"], py_first, row["mro"]),
+                          "types=%s abcs=%s; real guards=%s first=%d mro=%s abcs=%s" % (row["type"], gv, d, tys, abcs, row["guards"], py_first, row["mro"], row.get("abcs")),
                           {"kind": "dispatch", "row": row}, found_input=False)
     for case, res in zip(cases, results):
         if not case["known_limit"] and res["v"]:
             ctx.sample({"case": case["id"], "label": case["label"], "cfg": case["cfg"], "spec": case["spec"] if G.spec_size(case["spec"]) < 12 else "(%d values)" % G.spec_size(case["spec"]),
                         "oracle_diffs": res["diffs"][:3]}, limit=4)
     ctx.cov["known_limits_reproduced"] = known_seen
+    ctx.cov["outside_pool"] = {"cases": outside_pool, "meaning": "optimizers/schedulers inside containers: outside the property's value "
+                               "kinds; the model predicts the written store and that load raises; agreement recorded, never judged"}
     ctx.cov["outside_domain"] = {"cases": n_outside, "of": len(idx), "samples": outside_samples,
                                  "meaning": "generated graphs the model places outside wf_obj; not judged"}
     ctx.log("correspondence: %d evaluations, %d dispatch rows, %d disagreements" % (len(exprs), len(dexprs), nd))
